@@ -1469,7 +1469,7 @@ func lemmaSliceConcat(seq Sequence, c int) Sequence {
 //@   assigns result
 
 //@ func multipleLocationParser(state *pars.State, result *pars.Result) (err error)
-//@   prop C07
+//@   prop C06 C07
 //@   requires !isnil(state) && !isnil(result)
 //@   ensures isnil(err) ==> is(result.Value, []Location) && len(result.Value.([]Location)) >= 1 && (forall k in 0..len(result.Value.([]Location)): !isnil(result.Value.([]Location)[k]))
 //@   loop 1: invariant fresh(locs) && len(locs) >= 1 && (forall k in 0..len(locs): !isnil(locs[k]))
